@@ -388,7 +388,6 @@ def _shape_models() -> List[Tuple[str, str]]:
             + cls("Holder", None, [], [("nothing", "Abstract_nothing"), ("code", "Code"), ("codes", "Optional[List[Hardly_something]]")]),
         )
     )
-<<<<<<< HEAD
     # Constant sets at their smallest and per type of the items: a set WITHOUT items (the emitters join the items with
     # ",\n" and append a trailing comma: Go wrote ``{\n\t,\n}``), one and two items of every primitive type (the Go map
     # literal needs ``key: struct{}{}`` for every type) and of an enumeration; the primitive constants.
@@ -429,7 +428,6 @@ def _shape_models() -> List[Tuple[str, str]]:
         lines += ["Text_%d: str = constant_str(value=%s, description=%s)" % (k, lit(text), lit("Hold the text %d." % k)), ""]
     lines += ["All_texts: Set[str] = constant_set(values=[%s])" % ", ".join(lit(text) for text in NASTY_LITERALS), ""]
     r.append(("nasty-literals", _MODEL_HEADER + "\n".join(lines)))
-=======
     # An implementation-specific class, alone and held by another class: every target has to write the snippets it
     # demands (the generated modules refer to what the snippets define)
     impl = '@implementation_specific\nclass Special_thing(DBC):\n    """Represent a special thing."""\n\n    ident: str\n    """Hold ident."""\n\n    def __init__(self, ident: str) -> None:\n        self.ident = ident\n\n\n'
@@ -454,7 +452,6 @@ def _shape_models() -> List[Tuple[str, str]]:
     r.append(("integer-constant-above-int64", _MODEL_HEADER + one("Above_int64", 2**63) + holder))
     r.append(("integer-constant-above-uint64", _MODEL_HEADER + one("Above_uint64", 2**64) + holder))
     r.append(("integer-set-literal-above-uint64", _MODEL_HEADER + ints("Big_ints", [1, 2**64]) + holder))
->>>>>>> 1ace8bb9e1b7b30e3dfe90e4031e5e59c36abe67
     return r
 
 
